@@ -355,7 +355,10 @@ func runFanOnce(in *FanInput) (obs FanObs) {
 			obs.Problem = err.Error()
 			return obs
 		}
-		call = func() error { _, err := svc.AggregateAttestation(parent, &api.AggregateAttestationOpts{Slot: 5}); return err }
+		call = func() error {
+			_, err := svc.AggregateAttestation(parent, &api.AggregateAttestationOpts{Slot: 5})
+			return err
+		}
 	case kindHeader:
 		m := map[string]eth2client.BeaconBlockHeadersProvider{}
 		for i, p := range provs {
@@ -366,7 +369,10 @@ func runFanOnce(in *FanInput) (obs FanObs) {
 			obs.Problem = err.Error()
 			return obs
 		}
-		call = func() error { _, err := svc.BeaconBlockHeader(parent, &api.BeaconBlockHeaderOpts{Block: "head"}); return err }
+		call = func() error {
+			_, err := svc.BeaconBlockHeader(parent, &api.BeaconBlockHeaderOpts{Block: "head"})
+			return err
+		}
 	case kindProposal:
 		m := map[string]eth2client.ProposalProvider{}
 		for i, p := range provs {
@@ -388,7 +394,10 @@ func runFanOnce(in *FanInput) (obs FanObs) {
 			obs.Problem = err.Error()
 			return obs
 		}
-		call = func() error { _, err := svc.BeaconBlockRoot(parent, &api.BeaconBlockRootOpts{Block: "head"}); return err }
+		call = func() error {
+			_, err := svc.BeaconBlockRoot(parent, &api.BeaconBlockRootOpts{Block: "head"})
+			return err
+		}
 	case kindBlock:
 		m := map[string]eth2client.SignedBeaconBlockProvider{}
 		for i, p := range provs {
@@ -399,7 +408,10 @@ func runFanOnce(in *FanInput) (obs FanObs) {
 			obs.Problem = err.Error()
 			return obs
 		}
-		call = func() error { _, err := svc.SignedBeaconBlock(parent, &api.SignedBeaconBlockOpts{Block: "head"}); return err }
+		call = func() error {
+			_, err := svc.SignedBeaconBlock(parent, &api.SignedBeaconBlockOpts{Block: "head"})
+			return err
+		}
 	case kindContrib:
 		m := map[string]eth2client.SyncCommitteeContributionProvider{}
 		for i, p := range provs {
@@ -410,7 +422,10 @@ func runFanOnce(in *FanInput) (obs FanObs) {
 			obs.Problem = err.Error()
 			return obs
 		}
-		call = func() error { _, err := svc.SyncCommitteeContribution(parent, &api.SyncCommitteeContributionOpts{Slot: 5}); return err }
+		call = func() error {
+			_, err := svc.SyncCommitteeContribution(parent, &api.SyncCommitteeContributionOpts{Slot: 5})
+			return err
+		}
 	case kindUnblind:
 		ps := make([]builderclient.UnblindedProposalProvider, len(provs))
 		for i, p := range provs {
